@@ -36,3 +36,15 @@ package enterleavesensorpb
 //@   modifies nothing
 //@   loop 0:
 //@     invariant !chanClosed(send)
+//@
+//@ property C20
+//@ // the arithmetic of one total (C20 "enter/leave totals ... stay mutually consistent"): a total the caller supplied that
+//@ // differs from the current one replaces it; otherwise (none supplied, or the current one echoed back) the result is the
+//@ // current total, plus one when the event moves in this total's direction; an absent current total counts as zero
+//@ func (*Model).CreateEnterLeaveEvent$1$1(val, cur, inc) (res)
+//@   inline     // the interceptor above sees the body; this contract states the rule for the helper on its own
+//@   letold cv := cur == nil ? 0 : deref(cur)
+//@   ensures [supplied] val != nil && old(deref(val)) != cv ==> res == val
+//@   ensures [counted] (val == nil || old(deref(val)) == cv) && inc && cv < 2147483647 ==> res != nil && fresh(res) && deref(res) == cv + 1
+//@   ensures [carried] (val == nil || old(deref(val)) == cv) && !inc ==> res != nil && fresh(res) && deref(res) == cv
+//@   modifies nothing
